@@ -157,49 +157,57 @@ def substActor (c : Ctx) : List String → Except Err (List String)
       | none => .error .noActor
     else .ok (p :: rest)
 
-/-- the substitution block for a path starting with `framer` -/
+/-- `parts[3]` after `frame`: `me` → this frame, `main` → the main frame -/
+def substFrameName (c : Ctx) (p3 : String) : Except Err String :=
+  if p3 = "me" then .ok ((c.frames.head?.map (·.name)).getD "")
+  else if p3 = "main" then
+    match c.mains with
+    | m :: _ => .ok ((m.chain.head?.map (·.name)).getD "")
+    | [] => .error .noMain
+  else .ok p3
+
+/-- `parts[1]` after `framer`: `me` → this framer, `main` → the framer of the main frame -/
+def substFramerName (c : Ctx) (p1 : String) : Except Err String :=
+  if p1 = "me" then .ok c.framerName
+  else if p1 = "main" then
+    match c.mains with
+    | m :: _ => .ok m.framerName
+    | [] => .error .noMain
+  else .ok p1
+
+/-- the substitution block for a path starting with `framer` (argument: the segments after it) -/
 def substFramer (c : Ctx) : List String → Except Err (List String)
   | [] => .error .indexError                                  -- parts[1]
   | p1 :: rest => do
-    let p1 ←
-      if p1 = "me" then .ok c.framerName
-      else if p1 = "main" then
-        match c.mains with
-        | m :: _ => .ok m.framerName
-        | [] => .error .noMain
-      else .ok p1
+    let p1 ← substFramerName c p1
     match rest with
     | [] => return ["framer", p1]
-    | "frame" :: rest3 =>
-      match rest3 with
-      | [] => .error .indexError                               -- parts[3]
-      | p3 :: rest4 => do
-        let p3 ←
-          if p3 = "me" then .ok ((c.frames.head?.map (·.name)).getD "")
-          else if p3 = "main" then
-            match c.mains with
-            | m :: _ => .ok ((m.chain.head?.map (·.name)).getD "")
-            | [] => .error .noMain
-          else .ok p3
-        match rest4 with
-        | "actor" :: rest5 => do
-          let tail ← substActor c rest5
-          return "framer" :: p1 :: "frame" :: p3 :: "actor" :: tail
-        | _ => return "framer" :: p1 :: "frame" :: p3 :: rest4
-    | "actor" :: rest3 => do
-      let tail ← substActor c rest3
-      return "framer" :: p1 :: "actor" :: tail
-    | _ => return "framer" :: p1 :: rest
+    | p2 :: rest3 =>
+      if p2 = "frame" then
+        match rest3 with
+        | [] => .error .indexError                             -- parts[3]
+        | p3 :: rest4 => do
+          let p3 ← substFrameName c p3
+          match rest4 with
+          | [] => return ["framer", p1, "frame", p3]
+          | p4 :: rest5 =>
+            if p4 = "actor" then do
+              let tail ← substActor c rest5
+              return "framer" :: p1 :: "frame" :: p3 :: "actor" :: tail
+            else return "framer" :: p1 :: "frame" :: p3 :: p4 :: rest5
+      else if p2 = "actor" then do
+        let tail ← substActor c rest3
+        return "framer" :: p1 :: "actor" :: tail
+      else return "framer" :: p1 :: p2 :: rest3
 
 /-- `Act.resolvePath` from the split `ipath` to the final segments -/
 def resolveParts (c : Ctx) (inode : Option (List String)) (parts : List String) : Except Err (List String) :=
-  let parts :=
-    match parts with
-    | "" :: _ => parts                       -- absolute: no relative substitutions at all
-    | _ => prepend c inode parts
+  -- `if not parts or parts and parts[0]`: empty or relative → prepending; absolute: untouched
+  let parts := if parts.head? = some "" then parts else prepend c inode parts
+  -- `if parts and parts[0]: if parts[0] == 'framer'`
   match parts with
-  | "framer" :: rest => substFramer c rest
-  | _ => .ok parts
+  | [] => .ok []
+  | p0 :: rest => if p0 = "framer" then substFramer c rest else .ok (p0 :: rest)
 
 /-- final text and whether it denotes a node (trailing dot); the name handed to the store is
 `createNode(ipath.rstrip('.'))` for a node and `create(ipath)` for a share -/
